@@ -363,14 +363,14 @@ package eval
 //@ func evalModule
 //@   props C22
 //@   nosafety
-//@   log Frame.PrepareEval fv
+//@   log Frame.PrepareEval fv mapstore mapdelete
 //@   results ns err
 //@   before fv [installed-before-exec] fm.Evaler.modules != nil ==> haskey(fm.Evaler.modules, key) && fm.Evaler.modules[key] === ns
 //@   exit [prepared-first] callis(0, "Frame.PrepareEval") && ncallsof("Frame.PrepareEval") == 1
 //@   exit [not-run-if-static-error] !(callerr(0) === nil) ==> ncalls == 1 && err === callerr(0) && haskey(fm.Evaler.modules, key) == old(haskey(fm.Evaler.modules, key))
-//@   exit [run-exactly-once-otherwise] callerr(0) === nil ==> ncallsof("fv") == 1
-//@   exit [failed-module-not-remembered] ncallsof("fv") == 1 && !(callres(1) === nil) ==> !(err === nil) && !haskey(fm.Evaler.modules, key)
-//@   exit [success-returns-installed-namespace] ncallsof("fv") == 1 && callres(1) === nil ==> err === nil && ns === callres(0).(*Ns)
+//@   exit [run-exactly-once-otherwise] callerr(0) === nil ==> ncallsof("fv") == 1 && ncallsof("mapstore") == 1
+//@   exit [failed-module-not-remembered] ncallsof("fv") == 1 && !(callres(2) === nil) ==> !(err === nil) && !haskey(fm.Evaler.modules, key)
+//@   exit [success-returns-installed-namespace] ncallsof("fv") == 1 && callres(2) === nil ==> err === nil && ns === callres(0).(*Ns)
 
 // useFromFile: a module already in the table is returned as is - nothing is
 // read, loaded or evaluated again; otherwise it is evaluated at most once and
@@ -378,10 +378,11 @@ package eval
 //@ func useFromFile
 //@   props C22
 //@   nosafety
-//@   log evalModule readFileUTF8 pluginOpen os.Stat
+//@   log evalModule readFileUTF8 pluginOpen os.Stat mapstore mapdelete
 //@   results ns err
 //@   exit [cached-module-shared-not-reevaluated] old(haskey(fm.Evaler.modules, path)) ==> ncalls == 0 && err === nil && ns === old(fm.Evaler.modules[path])
 //@   exit [evaluated-at-most-once] ncallsof("evalModule") <= 1
+//@   exit [source-modules-installed-only-by-evalModule] ncalls >= 1 && callis(0, "os.Stat") && !(callerr(0) === nil) ==> ncallsof("mapstore") == 0 && ncallsof("mapdelete") == 0
 //@   exit [keyed-by-path] forall k int :: 0 <= k && k < ncalls && callis(k, "evalModule") ==> callarg1(k) === path
 //@   exit [evaluation-result-returned] ncallsof("evalModule") == 1 ==> callis(ncalls - 1, "evalModule") && err === callerr(ncalls - 1)
 
@@ -391,14 +392,16 @@ package eval
 //@ func use
 //@   props C22
 //@   nosafety
-//@   log filepath.Dir os.Getwd useFromFile evalModule
+//@   log filepath.Dir os.Getwd filepath.Clean useFromFile evalModule mapstore mapdelete
 //@   results ns err
-//@   loop 1 invariant ncallsof("filepath.Dir") == 0 && ncallsof("os.Getwd") == 0 && ncallsof("evalModule") == 0
+//@   loop 1 invariant ncallsof("filepath.Dir") == 0 && ncallsof("os.Getwd") == 0 && ncallsof("evalModule") == 0 && ncallsof("mapstore") == 0 && ncallsof("mapdelete") == 0 && ncallsof("filepath.Clean") == 0
 //@   loop 1 invariant ncalls == ncallsof("useFromFile")
 //@   loop 1 invariant forall k int :: 0 <= k && k < ncalls ==> istype(callerr(k), NoSuchModule)
 //@   exit [relative-to-importing-file] ncallsof("filepath.Dir") >= 1 ==> old(fm.src.IsFile) && ncallsof("filepath.Dir") == 1 && callis(0, "filepath.Dir") && callarg(0) === old(fm.src.Name) && ncallsof("os.Getwd") == 0
 //@   exit [relative-to-cwd-when-not-from-file] ncallsof("os.Getwd") >= 1 ==> !old(fm.src.IsFile) && ncallsof("os.Getwd") == 1 && callis(0, "os.Getwd") && ncallsof("filepath.Dir") == 0
 //@   exit [predefined-module-shared] old(haskey(fm.Evaler.modules, spec)) && ncallsof("filepath.Dir") + ncallsof("os.Getwd") == 0 ==> ncalls == 0 && err === nil && ns === old(fm.Evaler.modules[spec])
+//@   exit [table-changed-only-by-evaluation] ncallsof("mapstore") == 0 && ncallsof("mapdelete") == 0
+//@   exit [relative-path-is-canonical] ncallsof("filepath.Dir") + ncallsof("os.Getwd") >= 1 && ncallsof("useFromFile") >= 1 ==> ncallsof("useFromFile") == 1 && callis(ncalls - 2, "filepath.Clean") && callis(ncalls - 1, "useFromFile") && callarg2(ncalls - 1) === callres(ncalls - 2)
 //@   exit [only-missing-modules-are-skipped] forall k int :: 0 <= k && k < ncalls - 1 && callis(k, "useFromFile") && callis(k + 1, "useFromFile") ==> istype(callerr(k), NoSuchModule)
 
 // ---------------------------------------------------------------------------
@@ -406,7 +409,26 @@ package eval
 // compile is assumed not to run user code and not to touch the Evaler (it only
 // builds operations); prepareFrame / nsOp.prepare are havoc.
 
+// compile builds operations and a NEW static namespace: it works on a clone of the
+// global static namespace, so compiling (even code that declares or deletes
+// variables and then fails to compile) leaves every existing object alone. The
+// tree walk itself (compiler.chunkOp) is assumed to write only the compiler it is
+// given and the scopes that compiler owns - which is why the clone must be fresh.
 //@ func compile
+//@   props C16
+//@   pure
+//@   nosafety
+//@   nowrite
+//@ func staticNs.clone
+//@   props C16
+//@   nosafety
+//@   nowrite
+//@   ensures fresh(result)
+//@ func compiler.chunkOp
+//@   trusted
+//@   nowrite
+//@   requires [compiles-into-its-own-scope] len(cp.scopes) >= 1 && fresh(cp.scopes[0])
+//@ func newDeprecationRegistry
 //@   trusted
 //@   pure
 //@ func Evaler.prepareFrame
@@ -504,7 +526,7 @@ package eval
 //@   props C20 C19
 //@   nosafety
 //@   nomerge
-//@   log Callable.Call sync.WaitGroup.Done semaphore.Weighted.Release sync.Mutex.Lock sync.Mutex.Unlock errutil.Multi atomic.StoreInt32
+//@   log Callable.Call Reason sync.WaitGroup.Done semaphore.Weighted.Release sync.Mutex.Lock sync.Mutex.Unlock errutil.Multi atomic.StoreInt32 atomic.CompareAndSwapInt32
 //@   exit [callback-exactly-once] ncallsof("Callable.Call") == 1 && callis(0, "Callable.Call")
 //@   exit [done-exactly-once] ncallsof("sync.WaitGroup.Done") == 1
 //@   exit [slot-released-exactly-once-after-done] !(workerSema === nil) ==> ncallsof("semaphore.Weighted.Release") == 1 && (forall k int :: 0 <= k && k < ncalls && callis(k, "semaphore.Weighted.Release") ==> k >= 1 && callis(k - 1, "sync.WaitGroup.Done"))
@@ -512,6 +534,8 @@ package eval
 //@   exit [errors-merged-under-the-lock] forall k int :: 0 <= k && k < ncalls && callis(k, "errutil.Multi") ==> k >= 1 && callis(k - 1, "sync.Mutex.Lock")
 //@   exit [lock-released] ncallsof("sync.Mutex.Lock") == ncallsof("sync.Mutex.Unlock")
 //@   exit [success-records-nothing] callres(0) === nil ==> ncallsof("atomic.StoreInt32") == 0 && ncallsof("errutil.Multi") == 0
+//@   exit [every-failure-recorded] !(callres(0) === nil) && callis(1, "Reason") && callres(1) != nil && callres(1) != Continue && callres(1) != Break ==> ncallsof("errutil.Multi") == 1 && ncallsof("atomic.StoreInt32") == 1
+//@   exit [break-stops-the-loop] !(callres(0) === nil) && callis(1, "Reason") && callres(1) == Break ==> ncallsof("atomic.StoreInt32") == 1 && ncallsof("errutil.Multi") == 0
 //@   exit [failure-reported] ncallsof("errutil.Multi") <= 1 && (forall k int :: 0 <= k && k < ncalls && callis(k, "errutil.Multi") ==> callarg1(k) === callres(0))
 
 // run-parallel: the WaitGroup counts every function before any is started, one
